@@ -48,3 +48,13 @@ Theorem C08_conflicts_collected_sorted_then_deduplicated :
      "return"; "conflict"; "loop"; "insert"; "insert"; "optimize"; "ok"]%string = true.
 Proof. exact (proj1 router_steps_shape). Qed.
 Print Assumptions C08_conflicts_collected_sorted_then_deduplicated.
+
+(* ---- the eighteen per-kind functions insert_<kind> / find_<kind> / delete_<kind>, REGENERATED from src/node/{insert,find,
+        delete}.rs on this run (Gen/KindOps.v): each touches only the child list of its own kind and recognises a child by name,
+        and constraint where the kind has one; over the model's keys that test is keqb ---- *)
+From WF Require Import Spec.Route Spec.Walk Gen.KindOps Proofs.KindOpsP.
+Theorem C08_per_kind_functions_use_their_own_list_and_key_equality :
+  ko_eqb gen_kind_ops expected_kind_ops = true
+  /\ forall k child wanted, key_of_kind k child -> key_of_kind k wanted -> sem_kind_test k child wanted = keqb child wanted.
+Proof. split; [exact kind_ops_table|exact kind_test_is_keqb]. Qed.
+Print Assumptions C08_per_kind_functions_use_their_own_list_and_key_equality.
